@@ -637,15 +637,15 @@ class EMCopyComplement(Contract):
     lenient = True
 
     def cases(self):
-        return [(shape, masked) for shape in ("one-station-per-receiver", "a-single-base-station") for masked in (True, False)]
+        return [(shape, masked) for shape in ("one-station-per-receiver", "a-single-base-station", "more-stations-than-this-entity") for masked in (True, False)]
 
     def setup(self, ctx):
         shape, masked = ctx.case
         me = em_self(ctx, "TipperReceivers")
-        me.attrs["n_vertices"] = 6
+        me.attrs["n_vertices"] = 1 if shape == "more-stations-than-this-entity" else 6
         partner = Opaque("partner")
         ctx.path.assume(~partner.none_var())
-        partner.attrs["n_vertices"] = 6 if shape == "one-station-per-receiver" else 1
+        partner.attrs["n_vertices"] = 6 if shape != "a-single-base-station" else 1
         partner.attrs["type"] = "Base stations"
         newp = Opaque("copy-of-the-partner")
         sc = Opaque("_super_copy")
@@ -670,7 +670,7 @@ class EMCopyComplement(Contract):
             return
         want = e["mask"] if (masked and shape == "one-station-per-receiver") else None
         ctx.oblige("the-selection-reaches-only-a-partner-with-one-station-per-receiver", made[0].get("mask") is want,
-                   note=f"mask handed to the partner's copy: {made[0].get('mask')!r}; a selection over 6 receivers has no meaning for a partner of {1 if shape != 'one-station-per-receiver' else 6} station(s)")
+                   note=f"mask handed to the partner's copy: {made[0].get('mask')!r}; a selection over this entity's stations has no meaning for a partner with another count of stations")
         ctx.oblige("the-copy-of-the-partner-is-linked-to-the-new-entity", e["new_entity"].attrs.get("base_stations") is e["newp"])
 
 
